@@ -415,6 +415,10 @@ type Report struct {
 	WallS              float64          `json:"wall_s"`
 }
 
+// caseWatchdog is the wall-clock budget of a single case (virtual-time cases
+// take milliseconds); exceeding it is reported as inconclusive, never as a verdict.
+var caseWatchdog = time.Duration(envInt("VERIF_CASE_WATCHDOG_S", 90)) * time.Second
+
 func onlyList() map[int]bool {
 	v := os.Getenv("VERIF_ONLY")
 	if v == "" {
@@ -470,6 +474,15 @@ func Run(t *testing.T, cfg Config, body func(c *Case)) {
 						continue
 					}
 					os.WriteFile(cur, []byte(strconv.Itoa(idx)), 0o644)
+					// Real-time watchdog (armed outside any bubble, so it uses the real clock): a
+					// case that makes no progress in wall-clock time is neither held nor violated.
+					wd := time.AfterFunc(caseWatchdog, func() {
+						buf := make([]byte, 8<<20)
+						n := runtime.Stack(buf, true)
+						os.WriteFile(filepath.Join(out, fmt.Sprintf("hang-%d.txt", idx)), buf[:n], 0o644)
+						fmt.Fprintf(os.Stderr, "VERIF-WATCHDOG: case %d made no progress for %v (wall clock); stacks in hang-%d.txt\n", idx, caseWatchdog, idx)
+						os.Exit(3)
+					})
 					c := &Case{Index: idx, R: NewRand(seed, uint64(idx)), T: t, Log: NewLog()}
 					func() {
 						defer func() {
@@ -484,6 +497,7 @@ func Run(t *testing.T, cfg Config, body func(c *Case)) {
 						}()
 						body(c)
 					}()
+					wd.Stop()
 					evs := c.Log.Events()
 					mu.Lock()
 					rep.Evaluations++
